@@ -270,7 +270,9 @@ def body_target(case):
 
     results = {}
     L_before = L.tobytes()
-    for method in ("Optical", "Radio", "Optical"):
+    # (the channel name as a string that is EQUAL to the literal but not the same object - what parsing a file or a
+    # command line yields)
+    for method in ("Optical", "Radio", "".join(["Opt", "ical"])):
         snap = [a.tobytes() for a in (trig, pexit, cos_eff, len_dec)]
         with quiet():
             with cut(f"RegionGeomToO.mcintegral({method})"):
